@@ -528,80 +528,91 @@ Fixpoint xor_chain (n : nat) (e : expr) (i : N) (acc : expr) : expr :=
   | S n' => xor_chain n' e (i + 1) (BVXor acc (BVSlice e i i) 1)
   end.
 
+(** the lowering of one unary operator applied to the (already resolved) operand [e] *)
+Definition lower_unary (dbg : bool) (toks : list string) (u : unop) (e : expr) : pres (expr * nat) :=
+  match u with
+  | USlice =>
+      _ <- require toks 6 ;;
+      msb <- of_opt (parse_width (tokn toks 4)) ;;
+      lsb <- of_opt (parse_width (tokn toks 5)) ;;
+      r <- b_slice dbg e msb lsb ;; POk (r, 6%nat)
+  | UNot => r <- b_not e ;; POk (r, 4%nat)
+  | UNeg => r <- b_neg e ;; POk (r, 4%nat)
+  | UUext =>
+      _ <- require toks 5 ;;
+      by_ <- of_opt (parse_width (tokn toks 4)) ;;
+      r <- b_ext dbg BVZeroExt e by_ ;; POk (r, 5%nat)
+  | USext =>
+      _ <- require toks 5 ;;
+      by_ <- of_opt (parse_width (tokn toks 4)) ;;
+      r <- b_ext dbg BVSignExt e by_ ;; POk (r, 5%nat)
+  | URedor =>
+      w <- unwrap_bv e ;;
+      if w =? 1 then POk (e, 4%nat) else
+      z <- b_lit w 0 ;; q <- b_equal dbg e z ;; r <- b_not q ;; POk (r, 4%nat)
+  | URedand =>
+      w <- unwrap_bv e ;;
+      if w =? 1 then POk (e, 4%nat) else
+      m <- b_lit w (2 ^ w - 1) ;; r <- b_equal dbg e m ;; POk (r, 4%nat)
+  | URedxor =>
+      w <- unwrap_bv e ;;
+      if w =? 1 then POk (e, 4%nat)
+      else if w =? 0 then PPanic PZeroWidth
+      else POk (xor_chain (N.to_nat (w - 1)) e 1 (BVSlice e 0 0), 4%nat)
+  | UUnsup => PPanic PUnsupported
+  end.
+
 Definition parse_unary (dbg : bool) (st : pstate) (toks : list string) (u : unop) : pres (expr * nat) :=
   _ <- require toks 4 ;;
   tpe <- get_tpe st (tokn toks 2) ;;
   e <- get_expr st (tokn toks 3) ;;
-  rc <- match u with
-        | USlice =>
-            _ <- require toks 6 ;;
-            msb <- of_opt (parse_width (tokn toks 4)) ;;
-            lsb <- of_opt (parse_width (tokn toks 5)) ;;
-            r <- b_slice dbg e msb lsb ;; POk (r, 6%nat)
-        | UNot => r <- b_not e ;; POk (r, 4%nat)
-        | UNeg => r <- b_neg e ;; POk (r, 4%nat)
-        | UUext =>
-            _ <- require toks 5 ;;
-            by_ <- of_opt (parse_width (tokn toks 4)) ;;
-            r <- b_ext dbg BVZeroExt e by_ ;; POk (r, 5%nat)
-        | USext =>
-            _ <- require toks 5 ;;
-            by_ <- of_opt (parse_width (tokn toks 4)) ;;
-            r <- b_ext dbg BVSignExt e by_ ;; POk (r, 5%nat)
-        | URedor =>
-            w <- unwrap_bv e ;;
-            if w =? 1 then POk (e, 4%nat) else
-            z <- b_lit w 0 ;; q <- b_equal dbg e z ;; r <- b_not q ;; POk (r, 4%nat)
-        | URedand =>
-            w <- unwrap_bv e ;;
-            if w =? 1 then POk (e, 4%nat) else
-            m <- b_lit w (2 ^ w - 1) ;; r <- b_equal dbg e m ;; POk (r, 4%nat)
-        | URedxor =>
-            w <- unwrap_bv e ;;
-            if w =? 1 then POk (e, 4%nat)
-            else if w =? 0 then PPanic PZeroWidth
-            else POk (xor_chain (N.to_nat (w - 1)) e 1 (BVSlice e 0 0), 4%nat)
-        | UUnsup => PPanic PUnsupported
-        end ;;
+  rc <- lower_unary dbg toks u e ;;
   let '(r, count) := rc in
   c <- check_expr_type dbg r tpe ;;
   POk (c, count).
 
 (** ** binary operators (parse.rs:373-458) *)
+(** the lowering of one binary operator applied to the resolved operands; [tpe] is the declared sort *)
+Definition lower_binary (dbg : bool) (tpe : ty) (bo : binop) (a b : expr) : pres expr :=
+  match bo with
+  | BIff =>
+      if negb (ty_eqb tpe (TBV 1)) then PErr
+      else if negb (ty_eqb (type_of a) (TBV 1)) then PErr
+      else if negb (ty_eqb (type_of b) (TBV 1)) then PErr
+      else b_equal dbg a b
+  | BImplies => b_implies dbg a b
+  | BSame mk swap negafter =>
+      inner <- (if swap then b_same dbg mk b a else b_same dbg mk a b) ;;
+      if negafter then (_ <- check_expr_type dbg inner tpe ;; b_not inner) else POk inner
+  | BCmp mk swap => if swap then b_cmp dbg mk b a else b_cmp dbg mk a b
+  | BEq negafter =>
+      inner <- b_equal dbg a b ;;
+      if negafter then (_ <- check_expr_type dbg inner tpe ;; b_not inner) else POk inner
+  | BConcat => b_concat dbg a b
+  | BRead => b_read a b
+  | BUnsup => PPanic PUnsupported
+  end.
+
 Definition parse_binary (dbg : bool) (st : pstate) (toks : list string) (bo : binop) : pres (expr * nat) :=
   _ <- require toks 5 ;;
   tpe <- get_tpe st (tokn toks 2) ;;
   a <- get_expr st (tokn toks 3) ;;
   b <- get_expr st (tokn toks 4) ;;
-  e <- match bo with
-       | BIff =>
-           if negb (ty_eqb tpe (TBV 1)) then PErr
-           else if negb (ty_eqb (type_of a) (TBV 1)) then PErr
-           else if negb (ty_eqb (type_of b) (TBV 1)) then PErr
-           else b_equal dbg a b
-       | BImplies => b_implies dbg a b
-       | BSame mk swap negafter =>
-           inner <- (if swap then b_same dbg mk b a else b_same dbg mk a b) ;;
-           if negafter then (_ <- check_expr_type dbg inner tpe ;; b_not inner) else POk inner
-       | BCmp mk swap => if swap then b_cmp dbg mk b a else b_cmp dbg mk a b
-       | BEq negafter =>
-           inner <- b_equal dbg a b ;;
-           if negafter then (_ <- check_expr_type dbg inner tpe ;; b_not inner) else POk inner
-       | BConcat => b_concat dbg a b
-       | BRead => b_read a b
-       | BUnsup => PPanic PUnsupported
-       end ;;
+  e <- lower_binary dbg tpe bo a b ;;
   c <- check_expr_type dbg e tpe ;;
   POk (c, 5%nat).
 
 (** ** ternary operators (parse.rs:460-478) *)
+Definition lower_ternary (dbg : bool) (is_ite : bool) (a b c : expr) : pres expr :=
+  if is_ite then b_ite dbg a b c else POk (ArrayStore a b c).
+
 Definition parse_ternary (dbg : bool) (st : pstate) (toks : list string) (is_ite : bool) : pres (expr * nat) :=
   _ <- require toks 6 ;;
   tpe <- get_tpe st (tokn toks 2) ;;
   a <- get_expr st (tokn toks 3) ;;
   b <- get_expr st (tokn toks 4) ;;
   c <- get_expr st (tokn toks 5) ;;
-  r <- (if is_ite then b_ite dbg a b c else POk (ArrayStore a b c)) ;;
+  r <- lower_ternary dbg is_ite a b c ;;
   k <- check_expr_type dbg r tpe ;;
   POk (k, 6%nat).
 
